@@ -469,7 +469,7 @@ func (c *Client) WaitAuthorization(ctx context.Context, url string) (*Authorizat
 		// This is just to prevent continuously hitting the CA
 		// while waiting for a final authorization status.
 		d := retryAfter(res.Header.Get("Retry-After"))
-		if d == 0 {
+		if d <= 0 {
 			// Given that the fastest challenges TLS-ALPN and HTTP-01
 			// require a CA to make at least 1 network round trip
 			// and most likely persist a challenge state,
